@@ -825,6 +825,13 @@ class Interp(Exec):
                 for t in s.targets:
                     if isinstance(t, ast.Name) and t.id == name and isinstance(s.value, ast.Constant):
                         return self.ev_Constant(s.value)
+                    if isinstance(t, ast.Name) and t.id == name and isinstance(s.value, ast.Call) and isinstance(s.value.func, ast.Name) \
+                            and s.value.func.id in self.reg.records and not s.value.keywords and all(isinstance(a, ast.Constant) for a in s.value.args):
+                        # a class-level constant built from literals: RecordClass("...")
+                        rec = self.reg.records[s.value.func.id]
+                        if len(rec.fields) == len(s.value.args):
+                            vals = [self.to_term(self.ev_Constant(a), ty) for a, (_, ty) in zip(s.value.args, rec.fields)]
+                            return VRec(rec.mk(*vals), rec)
         return None
 
     def class_member(self, base, name):
